@@ -17,6 +17,8 @@ KIND_ENUM = {
 # op -> (operator, sync probe, async probe or None if sync-only, Op enum name)
 OPS = {
     "Src": ("", "src", "srca"),
+    "SrcAwait": ("", "src", "srca"),
+    "ThenW": ("->", "t", "tw"),
     "Map": ("|>", "p", "pa"),
     "AndThen": ("=>", "q", "qa"),
     "OrElse": ("<=", "r", "ra"),
@@ -102,6 +104,9 @@ def render_operand(p, a, asy, names):
     else:
         probe = OPS[a.op][2 if asy else 1]
     call = "%s(%d)" % (probe, a.id)
+    if a.op == "SrcAwait" and asy:
+        # the head is awaited in the caller's block while the step-0 arguments are being built
+        call += ".await"
     if a.op == "Src" and a.id % 4 == 1 and not a.cap:
         # an initial value that binds weaker than a method call (a cast to its own type): still part of its branch
         call += " as %s" % ("Ov" if p.opt else ("BF" if asy else "Rv"))
@@ -118,7 +123,7 @@ def render_acts(p, acts, asy, names, first_tilde, last_in_step=True):
     for idx, a in enumerate(acts):
         tilde = "~" if (first_tilde and idx == 0) else ""
         is_last = last_in_step and idx == len(acts) - 1
-        if a.op == "Src":
+        if a.op in ("Src", "SrcAwait"):
             out.append(render_operand(p, a, asy, names))
         elif a.op in WRAP:
             opr, _ = WRAP[a.op]
@@ -338,10 +343,16 @@ def gen_rand_prog(pid, rng, max_branches=5, max_steps=4, async_ok=False):
         for k in range(d):
             acts = []
             if k == 0:
-                src = Act("Src", p.nid())
-                if caps and rng.random() < caps * 0.5:
-                    src.cap = p.nid()
-                acts.append(src)
+                if async_ok and bi >= 1 and rng.random() < 0.3:
+                    acts.append(Act("SrcAwait", p.nid()))
+                    acts.append(Act("ThenW", p.nid()))
+                    if "headawait" not in p.tags:
+                        p.tags.append("headawait")
+                else:
+                    src = Act("Src", p.nid())
+                    if caps and rng.random() < caps * 0.5:
+                        src.cap = p.nid()
+                    acts.append(src)
                 acts += gen_simple_ops(p, rng, rng.randint(0, 3), sync_only, wrap, 0, caps, names_avail, k)
             else:
                 acts += gen_simple_ops(p, rng, rng.randint(1, 3), sync_only, wrap, 0, caps, names_avail, k)
